@@ -4,7 +4,9 @@
 (* (harness/C07_arvados, harness/C07_keepstore) against BlobSigContract.   *)
 (* Events:                                                                 *)
 (*   {"ev":"reset","scn":id,"wf":bool,"same":bool, ...concrete details...} *)
-(*   {"ev":"signloc","prefixok":b,"sigok":b,"expok":b}                     *)
+(*   {"ev":"signloc","sigok":b,"expok":b}     (prefixok: drift only)        *)
+(*   {"ev":"putloc","sigok":b}                (keepstore PUT's locator)     *)
+(*   {"ev":"verifyks","rel":..,"ok":b}        (keepstore's wrapper)         *)
 (*   {"ev":"verify","via":..,"rel":"past"|"near"|"future","res":verdict}   *)
 (*   {"ev":"ksget","rel":..,"status":int}                                  *)
 (*   {"ev":"signtok","hin":[hint..],"hout":[hint..],"sigok":b}               *)
@@ -18,7 +20,9 @@ TraceInit == /\ l = 1
 TraceReset == /\ IsEvent("reset")
               /\ inp' = [wf |-> Ev.wf, same |-> Ev.same]
 
-TraceSignLoc == IsEvent("signloc") /\ SignLoc(Ev.prefixok, Ev.sigok, Ev.expok)
+TraceSignLoc == IsEvent("signloc") /\ SignLoc(Ev.sigok, Ev.expok)
+TracePutLoc  == IsEvent("putloc")  /\ PutLoc(Ev.sigok)
+TraceVerifyKs == IsEvent("verifyks") /\ VerifyKs(Ev.rel, Ev.ok)
 TraceVerify  == IsEvent("verify")  /\ Verify(Ev.rel, Ev.res)
 TraceKsGet   == IsEvent("ksget")   /\ KsGet(Ev.rel, Ev.status)
 TraceSignTok == IsEvent("signtok") /\ SignTok(Ev.hin, Ev.hout, Ev.sigok)
@@ -26,7 +30,7 @@ TraceSignMan == IsEvent("signman") /\ SignMan(Ev.wssame, Ev.othersame, Ev.hashsa
 
 TraceSkip    == IsEvent("skip")    /\ UNCHANGED inp     \* the driver could not make the observation
 
-TraceNext == TraceSkip \/ TraceReset \/ TraceSignLoc \/ TraceVerify \/ TraceKsGet \/ TraceSignTok \/ TraceSignMan
+TraceNext == TraceSkip \/ TraceReset \/ TracePutLoc \/ TraceVerifyKs \/ TraceSignLoc \/ TraceVerify \/ TraceKsGet \/ TraceSignTok \/ TraceSignMan
 
 TraceSpec == TraceInit /\ [][TraceNext]_<<cvars, l>>
 =============================================================================
